@@ -367,6 +367,8 @@ def install(it):
             return EngFormatter(it).run(slf, args, kwargs)
         if isinstance(slf, str) and name == "format_map" and args and not it.concrete(args[0]):
             raise Unsupported("format_map with heap mapping")
+        if isinstance(slf, str) and name == "join" and args and not isinstance(args[0], (list, tuple, str, dict, set)):
+            args = [list(it.iterate(args[0]))] + list(args[1:])  # materialise iterators (reversed(...), generators) to look at the elements
         if isinstance(slf, str) and name == "join" and args and not it.concrete(args[0]):
             parts = [p if isinstance(p, (str, SStr)) else it.unbase(p) for p in it.iterate(args[0])]
             if all(isinstance(p, str) for p in parts):
